@@ -83,6 +83,14 @@ func (w *c04World) resolveRef(ref string) (string, bool) {
 	return "", false
 }
 
+// canonAddr returns the canonical spelling of a bech32 address (all upper-case is a valid spelling of the same account).
+func canonAddr(s string) string {
+	if a, err := sdk.AccAddressFromBech32(s); err == nil {
+		return a.String()
+	}
+	return s
+}
+
 func (w *c04World) expectBuy(m *storagetypes.MsgBuyStorage) c04Expect {
 	e := c04Expect{}
 	gb := int64(1_000_000_000)
@@ -118,7 +126,7 @@ func (w *c04World) expectBuy(m *storagetypes.MsgBuyStorage) c04Expect {
 			}
 		}
 	}
-	if ref, ok := w.resolveRef(m.Referral); ok && ref != m.Creator {
+	if ref, ok := w.resolveRef(m.Referral); ok && ref != canonAddr(m.Creator) { // a distinct referrer is a different ACCOUNT
 		e.referred, e.referrer = true, ref
 		if dur.Milliseconds() > 365*24*3_600_000 {
 			e.discount = 5
@@ -275,7 +283,7 @@ func (w *c04World) buy(m *storagetypes.MsgBuyStorage) (string, string) {
 	before, sup, gb := w.f.Snapshot(), w.f.AllSupply(), w.gauges()
 	res := w.f.Exec(m)
 	w.logf("BuyStorage creator=%s for=%s days=%d bytes=%d denom=%s referral=%q [kind=%s referred=%v] -> %s", short(m.Creator), short(m.ForAddress), m.DurationDays, m.Bytes, m.PaymentDenom, m.Referral, e.kind, e.referred, res)
-	sig, msg := w.settle("BuyStorage", m.Creator, e, res, before, w.f.Snapshot(), sup, gb, w.gauges(), false)
+	sig, msg := w.settle("BuyStorage", canonAddr(m.Creator), e, res, before, w.f.Snapshot(), sup, gb, w.gauges(), false)
 	if sig == "" && res.OK() {
 		w.kinds[e.kind] = true
 		if e.referred {
@@ -327,6 +335,13 @@ func TestC04(t *testing.T) {
 		w := newWorld()
 		sig, msg := w.buy(&storagetypes.MsgBuyStorage{Creator: chain.Acc(0).Bech, ForAddress: chain.Acc(0).Bech, DurationDays: 30, Bytes: 3_000_000_000_000, PaymentDenom: "ujkl", Referral: chain.Acc(1).Bech})
 		rec.Regress("C04/split/referrer", sig != "", msg)
+	}
+	// ---- plain regression replay: self-referral through another spelling of the creator's address ----
+	{
+		w := newWorld()
+		a := chain.Acc(0)
+		sig, msg := w.buy(&storagetypes.MsgBuyStorage{Creator: strings.ToUpper(a.Bech), ForAddress: a.Bech, DurationDays: 30, Bytes: 3_000_000_000_000, PaymentDenom: "ujkl", Referral: a.Bech})
+		rec.Regress("C04/debit/self-referral-by-spelling", sig != "", msg)
 	}
 	if os_only_regress() {
 		return
@@ -407,7 +422,11 @@ func TestC04(t *testing.T) {
 				}
 				continue
 			}
-			m := &storagetypes.MsgBuyStorage{Creator: creator.Bech, PaymentDenom: rapid.SampledFrom([]string{"ujkl", "ujkl", "ujkl", "ujkl", "uatom", ""}).Draw(rt, "denom")}
+			spelledCreator := creator.Bech
+			if rapid.IntRange(0, 5).Draw(rt, "upperCaseCreator") == 0 {
+				spelledCreator = strings.ToUpper(creator.Bech) // same account, other spelling
+			}
+			m := &storagetypes.MsgBuyStorage{Creator: spelledCreator, PaymentDenom: rapid.SampledFrom([]string{"ujkl", "ujkl", "ujkl", "ujkl", "uatom", ""}).Draw(rt, "denom")}
 			m.ForAddress = creator.Bech
 			if rapid.IntRange(0, 3).Draw(rt, "forOther") == 0 {
 				m.ForAddress = chain.Acc(3).Bech
